@@ -412,7 +412,7 @@ def run(ctx):
               'a session can exit without returning its connections to the pool', ex.loc(), path=describe_path(p) if p else None)
     # every session-like __exit__ of the protocol layer: nothing that can fail stands between the entry and the recycle it is
     # about to make (a listener notified first, raising, would leave the connection checked out for good)
-    TOTAL_BEFORE_RECYCLE = {'abort', 'close', 'debug', 'info', 'warning', 'isinstance'}
+    TOTAL_BEFORE_RECYCLE = {'abort', 'close', 'debug', 'info', 'warning', 'isinstance', 'issubclass'}
     n_exits = 0
     for f in repo.funcs.values():
         if f.name != '__exit__' or not f.module.name.startswith('wpull.protocol.'):
@@ -651,8 +651,88 @@ def _no_handle_after_give_back(ctx, bs):
         raise AnalysisError('expected the HTTP and the FTP session classes below BaseSession (found %d)' % n_cls)
 
 
+_EXC_PROBES = {
+    # name -> base classes (Python >= 3.8: CancelledError is a BaseException)
+    'asyncio.CancelledError': ('BaseException',), 'KeyboardInterrupt': ('BaseException',), 'GeneratorExit': ('BaseException',),
+    'SystemExit': ('BaseException',), 'OSError': ('Exception', 'BaseException'), 'ValueError': ('Exception', 'BaseException'),
+    'asyncio.TimeoutError': ('Exception', 'BaseException'),
+}
+
+
+def _exit_test(test, P, val='exc_val', typ='exc_type'):
+    """Value of an __exit__ guard for an exception of class P in flight: True / False / None (cannot tell)."""
+    def sub(tname):
+        tname = tname.replace('concurrent.futures.', 'asyncio.')
+        if tname in ('CancelledError',):
+            tname = 'asyncio.CancelledError'
+        if tname == P:
+            return True
+        if tname in ('Exception', 'BaseException'):
+            return tname in _EXC_PROBES[P]
+        return False          # an unrelated class (StopIteration, ...)
+    t = test
+    if isinstance(t, ast.UnaryOp) and isinstance(t.op, ast.Not):
+        v = _exit_test(t.operand, P, val, typ)
+        return None if v is None else (not v)
+    if isinstance(t, ast.BoolOp):
+        vs = [_exit_test(x, P, val, typ) for x in t.values]
+        if isinstance(t.op, ast.Or):
+            return True if any(v is True for v in vs) else (None if any(v is None for v in vs) else False)
+        return False if any(v is False for v in vs) else (None if any(v is None for v in vs) else True)
+    if isinstance(t, ast.Name) and t.id in (val, typ):
+        return True
+    if isinstance(t, ast.Compare) and len(t.ops) == 1 and isinstance(t.left, ast.Name) and t.left.id in (val, typ) \
+            and isinstance(t.comparators[0], ast.Constant) and t.comparators[0].value is None:
+        if isinstance(t.ops[0], (ast.Is, ast.Eq)):
+            return False
+        if isinstance(t.ops[0], (ast.IsNot, ast.NotEq)):
+            return True
+    if isinstance(t, ast.Call) and isinstance(t.func, ast.Name) and t.func.id in ('isinstance', 'issubclass') and len(t.args) == 2 \
+            and isinstance(t.args[0], ast.Name) and t.args[0].id in (val, typ):
+        ts = t.args[1].elts if isinstance(t.args[1], ast.Tuple) else [t.args[1]]
+        names = [dotted(x) for x in ts]
+        if any(n is None for n in names):
+            return None
+        return any(sub(n) for n in names)
+    return None
+
+
 def _d8_cancellation(ctx, fields):
     repo, ck, res = ctx.repo, ctx.check, ctx.res
+    # (e) a session left through cancellation (or any other BaseException) is aborted like one left through an error: the guard of
+    #     abort() in every __exit__ of the protocol layer holds for CancelledError / KeyboardInterrupt / GeneratorExit too.  A session
+    #     that is merely recycled hands a connection with a half-read reply back to the pool.
+    n_ex = 0
+    for f in repo.funcs.values():
+        if f.name != '__exit__' or not f.module.name.startswith('wpull.protocol.') or len(f.params) < 4:
+            continue
+        pm = U.parents(f.node)
+        for c in U.calls(f.node):
+            if U.attr_name(c) != 'abort':
+                continue
+            n_ex += 1
+            conds = []
+            cur = c
+            for a in U.ancestors(c, pm):
+                if isinstance(a, ast.If):
+                    inbody = any(cur is x or any(cur is y for y in ast.walk(x)) for x in a.body)
+                    # tests that do not mention the exception arguments (is there a session at all?) are not about the exception
+                    if any(isinstance(x, ast.Name) and x.id in f.params[1:4] for x in ast.walk(a.test)):
+                        conds.append((a.test, inbody))
+                cur = a
+            bad = None
+            for P in sorted(_EXC_PROBES):
+                for t, pos in conds:
+                    v = _exit_test(t, P, f.params[2], f.params[1])
+                    if v is None:
+                        bad = bad or ('cannot decide `%s` for %s' % (norm_text(t)[:60], P))
+                    elif v != pos:
+                        bad = bad or ('`%s` is %s for %s' % (norm_text(t)[:60], v, P))
+            ck.expect(bad is None, 'C12-D8', f.qual, 'abort() is reached for every exception in flight, cancellation included',
+                      'a session left through cancellation is not aborted (%s): its connection goes back to the pool with an exchange half '
+                      'done, and the next user reads the rest of this reply as the answer to its own command' % bad, f.loc(c))
+    if n_ex < 2:
+        raise AnalysisError('expected the abort() calls in BaseSession.__exit__ and WebSession.__exit__ (found %d)' % n_ex)
     pool_classes = [repo.cls(q) for q in fields]
     # (a) wait() sites
     n_wait = 0
